@@ -142,6 +142,18 @@ class Probe(EventListener):
     __hash__ = object.__hash__
 
 
+class QueueProducer(EventProducer):
+    """A producer that is also a container (a queue that publishes): falsy while
+    it is empty, e.g. during construct_model."""
+
+    def __init__(self):
+        super().__init__()
+        self.items = []
+
+    def __len__(self):
+        return len(self.items)
+
+
 class StatsExt:
     def __init__(self, case):
         self.case = case
@@ -154,7 +166,7 @@ class StatsExt:
 
     def on_construct(self, runner, model):
         sim = runner.sim
-        model.producer = EventProducer()
+        model.producer = QueueProducer() if self.case.get("falsy_producer") else EventProducer()
         model.stats = []
         for i, sp in enumerate(self.spec):
             kind = sp["kind"]
